@@ -82,6 +82,10 @@ def base(name):
     raise ValueError(name)
 
 
+# extent of the mesh generator coordinate x0 (every domain is the box [0,a_1] x ... x [0,a_m])
+DOMAIN = {'line2': [2.], 'rect21': [2., 1.], 'rect22': [2., 2.], 'per22': [2., 2.], 'tri2': [1., 1.], 'mix2': [1., 1.], 'surftri': [1., 1.], 'box111': [1., 1., 1.],
+          'box211': [2., 1., 1.], 'tets6': [1., 1., 1.], 'curve': [2.], 'surf': [2., 1.], 'prod': [2., 2.]}
+
 NELEMS = {'line2': 2, 'rect21': 2, 'rect22': 4, 'per22': 4, 'tri2': 8, 'mix2': 6, 'box111': 1, 'box211': 2, 'tets6': 6, 'curve': 2, 'surf': 2, 'surftri': 2}
 
 
@@ -96,17 +100,12 @@ def refinements(name, tier):
         for sub in itertools.combinations(range(n), k):
             out.append(['by', list(sub)])
     if tier != 'quick':
-        # second level: refine one element, then one element of the resulting hierarchical topology
-        # (a child of the refined element, or a coarse neighbour): ['by2', i, j]
-        nchild = {'line2': 2, 'curve': 2, 'rect21': 4, 'rect22': 4, 'per22': 4, 'surf': 4, 'tri2': 4, 'surftri': 4, 'box111': 8, 'box211': 8, 'tets6': 8}
-        if name in nchild:
-            for i in range(n):
-                for j in range(n - 1 + nchild[name]):
-                    out.append(['by2', i, j])
-        elif name == 'mix2':
-            for i in range(n):
-                for j in range(n - 1 + 4):
-                    out.append(['by2', i, j])
+        # second level: refine element i, then child j of it (the children are the last elements of the hierarchical topology;
+        # refining a coarse neighbour instead is the one-level subset {i, j} again): ['by2', i, index of the child]
+        nchild = {'line2': 2, 'curve': 2, 'rect21': 4, 'rect22': 4, 'per22': 4, 'surf': 4, 'tri2': 4, 'surftri': 4, 'mix2': 4, 'box111': 8, 'box211': 8, 'tets6': 8}[name]
+        for i in range(n):
+            for j in range(n - 1, n - 1 + nchild):
+                out.append(['by2', i, j])
     return out
 
 
@@ -141,7 +140,7 @@ def build(cfg):
 
 
 def map_names(name, tier):
-    _, _, m = (None, None, {'line2': 1, 'curve': 1, 'box111': 3, 'box211': 3, 'tets6': 3}.get(name, 2))
+    m = len(DOMAIN[name])
     fam = model.embeddings(m, tier) if name in MANIFOLD else model.maps(m, tier)
     return [M.name for M in fam]
 
@@ -172,7 +171,12 @@ def fields(x, n):
     exps = model.monomials(n)
     P = numpy.stack([poly_expr(model.Poly(n, {e: 1.}), x) for e in exps])
     idx = model.vector_index(n)
-    V = numpy.stack([numpy.take(P, idx[:, j], axis=0) for j in range(n)], axis=1)
+    # V[v,i] = P[idx[v,i]] written as a contraction with a constant 0/1 selection tensor (cheaper for the nutils simplifier than nV*n takes)
+    sel = numpy.zeros((len(idx), n, len(exps)))
+    for v in range(len(idx)):
+        for i in range(n):
+            sel[v, i, idx[v, i]] = 1.
+    V = numpy.einsum('vip,p->vi', sel, P)
     return exps, idx, P, V
 
 
@@ -261,11 +265,7 @@ def _pointwise_fields(rec, vals, suffix, M, X0, A, exps, idx, nd, flat):
             rec.check('surflaplace' + suffix, vals['slapP'], numpy.einsum('npjk,nkj->np', H, P), X0)
 
 
-def _per_element(index, nelems_check=None):
-    return index
-
-
-def run_interior(rec, topo, x0, m, M, kind):
+def run_interior(rec, topo, x0, m, M, kind, cfg=None):
     from nutils import function
     x = geometry(M, x0)
     exps, idx, P, V = fields(x, M.n)
@@ -300,7 +300,13 @@ def run_interior(rec, topo, x0, m, M, kind):
         Nh = Nh / numpy.linalg.norm(Nh, axis=1)[:, None]
         s = numpy.sign((N * Nh).sum(1))
         rec.check('extnormal-unit-orthogonal', N * s[:, None], Nh, X0)
-        rec.check('extnormal-consistent-orientation', s, numpy.full(len(s), s[0] if len(s) and s[0] != 0 else 1.), X0)
+        # orientation: the same as on the unrefined topology (first Gauss point), i.e. independent of element and refinement
+        btopo, bx0, bm = base(cfg['topo'])
+        bvals = _ev(btopo.sample('gauss', 1), dict(x0=bx0, N=function.normal(geometry(M, bx0), bx0)))
+        bA = M.jacobian(bvals['x0'][:1])
+        bNh = numpy.array([bA[0, 1, 0], -bA[0, 0, 0]]) if m == 1 else numpy.cross(bA[0, :, 0], bA[0, :, 1])
+        s0 = numpy.sign(bvals['N'][0] @ bNh)
+        rec.check('extnormal-consistent-orientation', s, numpy.full(len(s), s0), X0)
 
 
 def _facet_reference(M, X0, verts_f, index, m, cent, eidx):
@@ -330,7 +336,7 @@ def _facet_funcs(topo, x0, x, P, V, M, kind, m, rich):
         if m > 1:
             funcs['sgradP'] = function.grad(P, x, -1)
         if rich:
-            funcs.update(ngradP=function.ngrad(P, x), nsymV=function.nsymgrad(V, x), lapP=function.laplace(P, x))
+            funcs.update(ngradP=function.ngrad(P, x), nsymV=function.nsymgrad(V, x))
             if m > 1:
                 funcs.update(sdivV=function.div(V, x, -1))
     return funcs, vec
@@ -353,8 +359,7 @@ def _facet_checks(rec, vals, sfx, M, kind, m, exps, idx, vec, verts_f, index, ce
     if kind == 'full':
         gV, dV, sV, cV = model.vector_ops(gP, idx)
         rec.check('grad' + sfx, vals['gradP'], gP, X0)
-        if 'lapP' in vals:
-            rec.check('laplace' + sfx, vals['lapP'], numpy.einsum('npjj->np', H), X0)
+        if 'ngradP' in vals:
             rec.check('ngrad' + sfx, vals['ngradP'], numpy.einsum('npj,nj->np', gP, nh), X0)
             rec.check('nsymgrad' + sfx, vals['nsymV'], numpy.einsum('nvij,nj->nvi', sV, nh), X0)
         if m > 1:
@@ -367,7 +372,7 @@ def _facet_checks(rec, vals, sfx, M, kind, m, exps, idx, vec, verts_f, index, ce
     return nh
 
 
-def run_boundary(rec, topo, x0, m, M, kind):
+def run_boundary(rec, topo, x0, m, M, kind, cfg=None):
     x = geometry(M, x0)
     exps, idx, P, V = fields(x, M.n)
     btopo = topo.boundary
@@ -384,7 +389,7 @@ def run_boundary(rec, topo, x0, m, M, kind):
     _facet_checks(rec, vals, '', M, kind, m, exps, idx, vec, verts_f, smp.index, cent)
 
 
-def run_interfaces(rec, topo, x0, m, M, kind):
+def run_interfaces(rec, topo, x0, m, M, kind, cfg=None):
     from nutils import function
     x = geometry(M, x0)
     exps, idx, P, V = fields(x, M.n)
@@ -425,7 +430,7 @@ def _weights(smp):
     return w
 
 
-def run_integral(rec, topo, x0, m, M, kind):
+def run_integral(rec, topo, x0, m, M, kind, cfg=None):
     '''integrals. The nutils quantities are the measures J (volume) and n J (oriented surface measure) at the
     Gauss points of an exact scheme, and topo.integrate / boundary.integrate of J, n J and x.n J. Reference: the
     volume and the integral of div F over every element computed with hand-written quadrature in x0 space. The
@@ -478,7 +483,10 @@ def run_integral(rec, topo, x0, m, M, kind):
     w = _weights(smp)
     volE = numpy.array([(w[ind] * iv[1][ind]).sum() for ind in smp.index])
     rec.check('int-J-element', volE, volEh, cent)
-    rec.check('int-J', vol, volEh.sum())
+    # the exact polynomial volume of G(domain), computed over the whole box without reference to the partition into elements
+    box = numpy.array(list(itertools.product(*[(0., a) for a in DOMAIN[cfg['topo']]])))
+    rec.check('int-J', vol, model.elem_integral(box, m, hvol))
+    rec.check('int-J-sum-of-elements', volE.sum(), model.elem_integral(box, m, hvol))
     if not dodiv:
         return
     dvEh = numpy.array([model.elem_integral(v, m, hdiv) for v in verts])
@@ -506,13 +514,13 @@ def run_integral(rec, topo, x0, m, M, kind):
         if cont.all():
             rec.check('interface-flux-cancels', jint[0] + 1., numpy.ones(n))
     rec.check('divergence-theorem-element', fE, dvEh, cent)
-    rec.check('divergence-theorem', fE.sum(0), dvEh.sum(0))
+    rec.check('divergence-theorem', fE.sum(0), model.elem_integral(box, m, hdiv))
     # closed surface: oint n J = 0 and oint x.n J = dim * volume (plus the seam terms of a periodic topology, included above)
     rec.check('closed-surface-normal-integral', tot_nJ + 1., numpy.ones(n))
-    rec.check('divergence-theorem-position', tot_xnJ, m * volEh.sum())
+    rec.check('divergence-theorem-position', tot_xnJ, m * model.elem_integral(box, m, hvol))
 
 
-def run_perspace(rec, topo, x0, m, M, kind):
+def run_perspace(rec, topo, x0, m, M, kind, cfg=None):
     '''product topology X*Y: operators restricted to one space (spaces= argument) are derivatives
     along that space's coordinate with the other space's coordinate held fixed'''
     from nutils import function
@@ -567,11 +575,65 @@ def run_perspace(rec, topo, x0, m, M, kind):
         rec.check('normal:allspaces:' + space + '-boundary', bv['nall'], model.outward(A, Tf, inward0), B0)
 
 
-KINDS = {'interior': run_interior, 'boundary': run_boundary, 'interfaces': run_interfaces, 'integral': run_integral, 'perspace': run_perspace}
+# fixed physical points (fractions of the domain box) that lie on no element boundary of any refinement level used
+FRACTIONS = numpy.array([[.31, .62, .83], [.71, .16, .37], [.44, .86, .13]])
+_BASE_CACHE = {}
+
+
+def _located_values(topo, x0, m, M, kind, pts):
+    from nutils import function
+    x = geometry(M, x0)
+    exps, idx, P, V = fields(x, M.n)
+    if kind == 'full':
+        funcs = dict(x0=x0, gradP=function.grad(P, x), divV=function.div(V, x))
+    else:
+        funcs = dict(x0=x0, sgradP=function.grad(P, x, -1), N=function.normal(x, x0))
+    with warnings.catch_warnings():
+        warnings.simplefilter('ignore')
+        smp = topo.locate(x0, pts, eps=1e-10, tol=1e-12)
+    return _ev(smp, funcs), exps, idx
+
+
+def run_located(rec, topo, x0, m, M, kind, cfg=None):
+    '''explicit differential: the same physical points on the refined and on the unrefined topology
+    (found with topo.locate on the affine coordinate x0) give the same operator values, equal to the reference'''
+    pts = FRACTIONS[:, :m] * numpy.array(DOMAIN[cfg['topo']])
+    try:
+        vals, exps, idx = _located_values(topo, x0, m, M, kind, pts)
+    except Exception as e:
+        if type(e).__name__ == 'LocateError':
+            rec.results.append(('locate-failed', 'trivial', repr(e)))
+            return
+        raise
+    key = cfg['topo'], cfg['map']
+    if key not in _BASE_CACHE:
+        b, bx0, bm = base(cfg['topo'])
+        btopo = b[0] * b[1] if cfg['topo'] == 'prod' else b
+        _BASE_CACHE[key] = _located_values(btopo, bx0, m, M, kind, pts)[0]
+    vals0 = _BASE_CACHE[key]
+    if abs(vals['x0'] - pts).max() > 1e-9 or abs(vals0['x0'] - pts).max() > 1e-9:
+        rec.results.append(('locate-inexact', 'trivial', ''))    # element lookup is C11's business
+        return
+    X0 = vals['x0']
+    A = M.jacobian(X0)
+    val, gP, H = model.mono_eval(M(X0), exps)
+    gV, dV, sV, cV = model.vector_ops(gP, idx)
+    if kind == 'full':
+        rec.check('located:grad', vals['gradP'], gP, X0)
+        rec.check('located:div', vals['divV'], dV, X0)
+        rec.check('same-point:grad', vals['gradP'], vals0['gradP'], X0)
+        rec.check('same-point:div', vals['divV'], vals0['divV'], X0)
+    else:
+        rec.check('located:surfgrad', vals['sgradP'], numpy.einsum('npk,nkj->npj', gP, _ptan(A)), X0)
+        rec.check('same-point:surfgrad', vals['sgradP'], vals0['sgradP'], X0)
+        rec.check('same-point:extnormal', vals['N'], vals0['N'], X0)
+
+
+KINDS = {'located': run_located, 'interior': run_interior, 'boundary': run_boundary, 'interfaces': run_interfaces, 'integral': run_integral, 'perspace': run_perspace}
 
 
 def kinds_for(name):
-    return ['interior', 'boundary', 'interfaces', 'integral'] + (['perspace'] if name == 'prod' else [])
+    return ['interior', 'boundary', 'interfaces', 'integral', 'located'] + (['perspace'] if name == 'prod' else [])
 
 
 def run_config(cfg, only=None):
@@ -580,7 +642,7 @@ def run_config(cfg, only=None):
     rec = Recorder(only)
     topo, x0, m, M, kind = build(cfg)
     try:
-        KINDS[cfg['kind']](rec, topo, x0, m, M, kind)
+        KINDS[cfg['kind']](rec, topo, x0, m, M, kind, cfg)
     except model.FrameError:
         raise
     except Exception as e:
